@@ -1,33 +1,38 @@
 """C01 — The objective is never evaluated outside the declared box bounds
 
-Run-level check: traced real runs (harness/runs.py) under the direct monitor of C01
-(harness/monitors.py).  The Lean theorems registered here are about the tree model
-(lean/PyhmsVerif/Model/Tree.lean); the model is tied to the code by trace refinement.
+Theorems: lean/PyhmsVerif/Props/C01.lean (about the tree model lean/PyhmsVerif/Model/Tree.lean).
+Tie to /repo: trace refinement — real runs are re-executed by `Tree.step`, state dumps and
+sprout-stage outputs are diffed (harness/refine.py); only disagreements that bear on this
+property count.  Direct monitor of the property on the same kind of runs (harness/monitors.py).
 """
-from .. import runs
+from .. import refine, runs
 
 MODULE = "PyhmsVerif.Props.C01"
 THEOREMS = []
 LEVEL = "exploration"
-LEVEL_TEXT = "Monitors state the property itself on real runs; sampled configurations only (no theorem yet for this property)."
-LEVEL_NOTE = "Sampled runs only; monitors trusted."
-TECHNIQUE = "direct monitors over hook-free traced runs (Lean model + refinement for this property under construction)"
-RULE = "case = one traced run of a random configuration (1-3 levels, engine per level from the full list, every shipped GSC/LSC kind plus user-defined ones, both stock sprout mechanisms and user-composed chains, hibernation on/off, both directions, decimal boxes); non-trivial = run with >= 2 demes and >= 2 metaepochs; distinct by configuration hash"
+LEVEL_TEXT = "Trace refinement against the Lean tree model plus the property's direct monitor on sampled real runs; theorems for this property not yet registered."
+LEVEL_NOTE = "Sampled runs only; model, tracer and monitors trusted."
+TECHNIQUE = "trace refinement against the Lean tree model (Tree.step re-executes real runs) + direct monitors"
+RULE = "case = one traced run of a random configuration (1-3 levels, engine per level from the full list, every shipped GSC/LSC kind plus user-defined ones, both stock sprout mechanisms and user-composed chains, hibernation on/off, both directions, decimal boxes, optional cutoff/precision/stats wrappers, shared or per-level problems); non-trivial = run with >= 2 demes and >= 2 metaepochs; distinct by configuration hash"
 ASSUMPTIONS = ["objective is deterministic and never returns NaN", "runs are capped at 12 metaepochs by a user-level composite stop condition"]
 FORCE = None
+PID = "C01"
 
 
 def run(ctx):
-    return [runs.monitor_batch(ctx, "C01", ctx.size(250, 3000), force=FORCE)]
+    return [
+        refine.refine_batch(ctx, ctx.size(120, 1500), force=FORCE, pid=PID, name="trace-refinement(Tree.step vs DemeTree.run)"),
+        runs.monitor_batch(ctx, PID, ctx.size(250, 3000), force=FORCE),
+    ]
 
 
 def search(ctx, broken):
-    return runs.monitor_batch(ctx, "C01", 400, salt=97, force=FORCE).violations
+    return runs.monitor_batch(ctx, PID, 500, salt=97, force=FORCE).violations
 
 
 def replay(data):
     spec = data["violation"]["replay"]["spec"]
-    _, res = runs.monitored_run(spec, {"C01"})
-    for v in res.get("C01", []):
+    _, res = runs.monitored_run(spec, {PID})
+    for v in res.get(PID, []):
         print(v["signature"], v["detail"])
-    return not res.get("C01")
+    return not res.get(PID)
